@@ -259,7 +259,7 @@ def run(ctx):
         if c.get("wrong_by_dst") and got is not None and strip_locale(got) == c["wrong_by_dst"]:
             return {"rule": "relative-calendar-units-across-dst"}
         return None
-    res = decide(ctx, cases, model_share=1.0 if tier == "quick" else 0.2, known_key=known_key)
+    res = decide(ctx, cases, model_share=1.0, known_key=known_key)
     # TIMEZONE='local' under several process zones
     lv = []
     nlocal = 0
